@@ -29,6 +29,9 @@ use verif_harness::{SplitMix, Toks, for_each_case, id_from_u64};
 #[derive(Debug, Default)]
 struct MapBackend {
     map: RwLock<BTreeMap<(u8, Id), Bytes>>,
+    /// removing a missing file succeeds (wrap mode: `delete_list` stops at the first error, which
+    /// would make the number of forwarded removes depend on the store content)
+    lenient_remove: bool,
 }
 fn tnum(t: FileType) -> u8 {
     match t {
@@ -109,7 +112,7 @@ impl WriteBackend for MapBackend {
         Ok(())
     }
     fn remove(&self, tpe: FileType, id: &Id, _c: bool) -> RusticResult<()> {
-        if self.raw_remove(tpe, id) { Ok(()) } else { Err(nf(tpe, id)) }
+        if self.raw_remove(tpe, id) || self.lenient_remove { Ok(()) } else { Err(nf(tpe, id)) }
     }
 }
 
@@ -154,7 +157,7 @@ fn wrap_case(line: &str) -> String {
     let mut t = Toks::new(line);
     let dry = t.u() == 1;
     let n = t.u();
-    let store = Arc::new(MapBackend::default());
+    let store = Arc::new(MapBackend { lenient_remove: true, ..Default::default() });
     // a few files to read / remove / overwrite
     for ty in 0..5u64 {
         for i in 1..=4u64 {
